@@ -111,9 +111,35 @@ def build(case):
     return nodes
 
 
+USER_KEYS = set()  # keys that the current case itself assigns although they look like the mixins' private names
+
+
 def is_bookkeeping(key):
-    """Tree bookkeeping = the mixins' own private (name-mangled) attributes, whatever they are called."""
+    """Tree bookkeeping = the mixins' own private (name-mangled) attributes, whatever they are called - but not data
+    the user put there under such a name (a user class that is itself called NodeMixin and has private attributes)."""
+    if key in USER_KEYS:
+        return False
     return key in BOOK or key.startswith("_NodeMixin__") or key.startswith("_LightNodeMixin__")
+
+
+def _collect_user_keys(case):
+    USER_KEYS.clear()
+
+    def note(attrs):
+        for key, _ in attrs:
+            if (key.startswith("_NodeMixin__") or key.startswith("_LightNodeMixin__")) and key not in BOOK:
+                USER_KEYS.add(key)
+
+    def walk(spec):
+        note(spec["attrs"])
+        for child in spec.get("children") or []:
+            walk(child)
+
+    if case.get("kind") == "dict":
+        walk(case["data"])
+    else:
+        for attrs in case["attrs"]:
+            note(attrs)
 
 
 def public(node):
@@ -210,6 +236,7 @@ def has_empty_children(spec):
 
 
 def check_case(case, acc):
+    _collect_user_keys(case)
     if case.get("kind") == "dict":
         return check_dict_case(case, acc)
     nodes = build(case)
@@ -242,6 +269,9 @@ def _tree_once(case, acc, nodes):
     same_export(got, exp, dictcls)
     if exporter.export(start) != got:
         raise Violation("export-repeatable", "second export differs")
+    # options passed by position, in the order of the released signature (dictcls, attriter, childiter, maxlevel)
+    same_export(DictExporter(dictcls, attriter, childiter, maxlevel).export(start), exp, dictcls, path="root (positional constructor arguments)")
+    isomorphic(DictImporter(NODECLS[case["cls"]]).import_(got), exp, NODECLS[case["cls"]])
     # a long-lived exporter whose earlier export() calls were aborted by an exception from a user callback works as before
     trip = {"left": None}
 
@@ -350,7 +380,7 @@ def check_dict_case(case, acc):
 KEY = st.one_of(
     st.text(alphabet="abcxyz_", min_size=1, max_size=4),
     st.text(alphabet="abc _-1é.", min_size=1, max_size=4),
-    st.sampled_from(["_hidden", "__x", "id", "a b", "1", "Name", "_NodeMixin", "child", "parents"]),
+    st.sampled_from(["_hidden", "__x", "id", "a b", "1", "Name", "_NodeMixin", "child", "parents", "_NodeMixin__rev", "_NodeMixin__x", "_LightNodeMixin__rev"]),
     # names of read-only NodeMixin properties are ordinary attribute keys for export/import (they live in __dict__)
     st.sampled_from(["size", "depth", "height", "path", "root", "leaves", "is_leaf", "siblings", "descendants", "ancestors"]),
 ).filter(lambda k: k not in ("parent", "children", "self", "name"))
